@@ -1,12 +1,149 @@
 /- Driver operations of property C12 (ops are named "c12.<name>"). Core + Lean.Data.Json only. -/
 import Reamber.Util.Json
+import Reamber.Model.Stack
+import Reamber.Spec.Stack
 
 open Lean Reamber.J
 
 namespace Reamber.C12
 
-def handle (op : String) (_j : Json) : Except String Json :=
+open Reamber.Stack
+
+def cellOf? (j : Json) : Except String Cell :=
+  match j with
+  | Json.null => .ok .nan
+  | Json.bool b => .ok (.bool b)
+  | Json.str s => .ok (.str s)
+  | _ => do .ok (.num (← ratOf? j))
+
+def cellToJson : Cell → Json
+  | .nan => Json.null
+  | .num q => ratToJson q
+  | .bool b => Json.bool b
+  | .str s => Json.str s
+
+def zipCells (cols : List String) (vs : List Cell) : Except String Cells :=
+  if cols.length ≠ vs.length then .error "row width ≠ number of columns" else .ok (cols.zip vs)
+
+def tlistOf? (j : Json) : Except String TList := do
+  let key ← getStr j "key"
+  let cls ← getStr j "cls"
+  let cols ← getArr strOf? j "cols"
+  let labels ← getArr intOf? j "labels"
+  let rows ← getArr (arrOf? cellOf?) j "rows"
+  if labels.length ≠ rows.length then .error "labels/rows length" else
+  let rs ← (labels.zip rows).mapM (fun p => do .ok (⟨p.1, ← zipCells cols p.2⟩ : Row))
+  .ok ⟨key, cls, ⟨cols, rs⟩⟩
+
+def tlistToJson (l : TList) : Json :=
+  obj [("key", Json.str l.key), ("cls", Json.str l.cls), ("cols", listToJson Json.str l.frame.cols),
+       ("labels", listToJson intToJson (l.frame.rows.map (·.label))),
+       ("rows", listToJson (fun (r : Row) => listToJson (fun c => cellToJson (getC r.cells c)) l.frame.cols) l.frame.rows),
+       ("keys_ok", Json.bool (l.frame.rows.all (fun r => decide (keys r.cells = l.frame.cols))))]
+
+def tblToJson (t : Tbl) : Json :=
+  obj [("key", Json.str t.key), ("cls", Json.str t.cls), ("cols", listToJson Json.str t.cols),
+       ("rows", listToJson (fun (r : Cells) => listToJson (fun c => cellToJson (getC r c)) t.cols) t.rows)]
+
+def fnOf? (j : Json) : Except String Fn :=
+  match j with
+  | Json.arr #[Json.str k, q] => do
+      let q ← ratOf? q
+      match k with
+      | "add" => .ok (.add q)
+      | "sub" => .ok (.sub q)
+      | "mul" => .ok (.mul q)
+      | "div" => if q = 0 then .error "div by zero is outside the model" else .ok (.div q)
+      | _ => .error s!"unknown fn {k}"
+  | _ => .error s!"fn expected [name, q]: {j}"
+
+def valueOf? (j : Json) : Except String Value :=
+  match j.getObjVal? "a" with
+  | .ok a => do .ok (.array (← arrOf? cellOf? a))
+  | .error _ => do .ok (.scalar (← cellOf? (fieldD j "s" Json.null)))
+
+def opOf? (j : Json) : Except String Op := do
+  let k ← getStr j "k"
+  match k with
+  | "stack" =>
+      let incl ← optOf? (arrOf? strOf?) (fieldD j "incl" Json.null)
+      .ok (.stack incl)
+  | "set" => .ok (.set (← getNat j "sid") (← getStr j "col") (← valueOf? (← field j "v")))
+  | "map" => .ok (.map (← getNat j "sid") (← getStr j "col") (← fnOf? (← field j "f")))
+  | "loc_set" => .ok (.locSet (← getNat j "sid") (← getArr boolOf? j "mask") (← getArr strOf? j "cols") (← cellOf? (← field j "v")))
+  | "loc_map" => .ok (.locMap (← getNat j "sid") (← getArr boolOf? j "mask") (← getArr strOf? j "cols") (← fnOf? (← field j "f")))
+  | "attr_set" => .ok (.attrSet (← getNat j "sid") (← getStr j "name") (← valueOf? (← field j "v")))
+  | "attr_map" => .ok (.attrMap (← getNat j "sid") (← getStr j "name") (← fnOf? (← field j "f")))
+  | _ => .error s!"unknown op kind {k}"
+
+def sopOf? (j : Json) : Except String SOp := do
+  let k ← getStr j "k"
+  match k with
+  | "stack" => .ok .stack
+  | "set" => .ok (.set (← getNat j "ms") (← getStr j "col") (← getArr (arrOf? cellOf?) j "rows"))
+  | "map" => .ok (.map (← getNat j "ms") (← getStr j "col") (← fnOf? (← field j "f")))
+  | "attr_set" => .ok (.attrSet (← getNat j "ms") (← getStr j "name") (← getArr (arrOf? cellOf?) j "rows"))
+  | "attr_map" => .ok (.attrMap (← getNat j "ms") (← getStr j "name") (← fnOf? (← field j "f")))
+  | _ => .error s!"unknown set-op kind {k}"
+
+def errToJson : Option Err → Json
+  | none => Json.null
+  | some e => Json.str e.toString
+
+def mapWOf? (j : Json) : Except String MapW := do
+  .ok ⟨← getStr j "mcls", ← getArr tlistOf? j "lists", []⟩
+
+/-- the implementation's lists after one step, label-free, for the specification check -/
+def implTblsOf? (j : Json) : Except String (List Tbl) := do
+  let ls ← arrOf? tlistOf? j
+  .ok (contents ls)
+
+def handle (op : String) (j : Json) : Except String Json := do
   match op with
+  | "c12.run" =>
+    let w ← mapWOf? j
+    let ops ← getArr opOf? j "ops"
+    let tr := runTrace w ops
+    .ok (okJson (obj [
+      ("wf", Json.bool (w.lists.all wfListB)),
+      ("steps", listToJson (fun (p : MapW × Option Err) =>
+          obj [("err", errToJson p.2), ("lists", listToJson tlistToJson p.1.lists)]) tr),
+      ("fresh", listToJson Json.bool (freshTrace w ops))]))
+  | "c12.spec" =>
+    -- the specification run: the same history, told which calls raised (observed on the implementation);
+    -- `impl` = the implementation's lists after every call; the comparison is made here, on `Tbl`s
+    let w ← mapWOf? j
+    let ops ← getArr opOf? j "ops"
+    let failed ← getArr boolOf? j "failed"
+    let impl ← getArr implTblsOf? j "impl"
+    let tr := specTrace (toSpec w) (ops.zip failed)
+    let oks := (tr.zip impl).map (fun p => decide (p.1.tbls = p.2))
+    .ok (okJson (obj [
+      ("ok", listToJson Json.bool oks),
+      ("complete", Json.bool (tr.length = impl.length && ops.length = failed.length)),
+      ("spec", listToJson (fun (s : SpecW) => listToJson tblToJson s.tbls) tr)]))
+  | "c12.run_set" =>
+    let scls ← getStr j "scls"
+    let maps ← getArr mapWOf? j "maps"
+    let ops ← getArr sopOf? j "ops"
+    let tr := srunTrace ⟨scls, maps, [], []⟩ ops
+    .ok (okJson (obj [
+      ("steps", listToJson (fun (p : SetW × Option Err) =>
+          obj [("err", errToJson p.2),
+               ("maps", listToJson (fun (m : MapW) => listToJson tlistToJson m.lists) p.1.maps)]) tr),
+      ("fresh", listToJson Json.bool (sfreshTrace ⟨scls, maps, [], []⟩ ops))]))
+  | "c12.spec_set" =>
+    let scls ← getStr j "scls"
+    let maps ← getArr mapWOf? j "maps"
+    let ops ← getArr sopOf? j "ops"
+    let failed ← getArr boolOf? j "failed"
+    let impl ← getArr (arrOf? implTblsOf?) j "impl"
+    let tr := specSTrace ⟨scls, maps.map toSpec, []⟩ (ops.zip failed)
+    let oks := (tr.zip impl).map (fun p => decide (p.1.charts.map (·.tbls) = p.2))
+    .ok (okJson (obj [
+      ("ok", listToJson Json.bool oks),
+      ("complete", Json.bool (tr.length = impl.length && ops.length = failed.length)),
+      ("spec", listToJson (fun (s : SpecSetW) => listToJson (fun (c : SpecW) => listToJson tblToJson c.tbls) s.charts) tr)]))
   | _ => .error s!"unknown op {op}"
 
 end Reamber.C12
